@@ -31,6 +31,22 @@ def peel_newtype(f, ty, depth=0):
     return ty
 
 
+def field_paths(f, adt, pred, depth=0):
+    """[(dotted index path, field name)] of the fields satisfying pred(type), also inside private structs of the crate that
+    group them (`channels: WeakChannels { sender, terminate_sender }`)."""
+    out = []
+    a = f.adts.get(adt)
+    if not a or not a.get("variants"):
+        return out
+    for i, fl in enumerate(a["variants"][0]["fields"]):
+        ty = f.ty(fl["ty"])
+        if pred(ty):
+            out.append((str(i), fl["name"], ty))
+        elif depth < 2 and ty.k == "adt" and ty.defn in f.adts and f.adts[ty.defn].get("kind") == "Struct":
+            out += [("%d.%s" % (i, p), n, t) for p, n, t in field_paths(f, ty.defn, pred, depth + 1)]
+    return out
+
+
 def _mentions_wait_map(f, tyid):
     t = f.ty(tyid)
     for x in t.walk():
